@@ -1,4 +1,5 @@
 SPEC = dict(
+    aux_kinds=['rng '],   # streams that call unexported helpers directly; skipped (UNAVAILABLE) when those are renamed
     harness="verif_c05",
     model="C05",
     rule="programs of 1-6 loads/stores (absolute, register-indirect, immediate stores; widths 1/2/4/8; signed and unsigned) at addresses within 9 "
